@@ -23,7 +23,7 @@ ENGINE = "gen_chain"
 
 RULE = ("programs = iterator-DSL chains from a typed grammar (12 sources incl. konst iterators with std twins, "
         "13 adapters, 14 consumers via iter::eval!/for_each!, closure forms: inline, typed-return block, pattern "
-        "parameter, function path; plus a const-context collect_const! batch), depth 0..=5; each chain is run on "
+        "parameter, function path, function-valued expression (evaluation count compared), closures using a variable of the caller that has the name of flat_map's parameter, tuple accumulator destructured by fold's closure, a RangeInclusive source already iterated to exhaustion; plus a const-context collect_const! batch), depth 0..=5; each chain is run on "
         "enumerated inputs (all i32 slices of length <= 5 over {0,1,2} (thorough: {0,1,2,3}) plus four long slices of length 8/13/21/34, 36 range-bound pairs, "
         "numeric take/skip/nth arguments 0..=6 and 9, 20, 35) against the identical std chain; oracle = equality of the Debug-rendered "
         "consumer result; non-trivial = chain with >= 2 adapters of which >= 1 is stateful (take/skip/skip_while/"
@@ -52,6 +52,18 @@ thread_local! { static ARGC: std::cell::Cell<u32> = const { std::cell::Cell::new
 pub fn ac<T>(v: T) -> T { ARGC.with(|c| c.set(c.get() + 1)); v }
 pub fn argc() -> u32 { ARGC.with(|c| c.replace(0)) }
 
+/// counts how often a function-valued argument expression (`map(fa(hv))`) is evaluated; reported separately from the
+/// other argument expressions
+thread_local! { static FARGC: std::cell::Cell<u32> = const { std::cell::Cell::new(0) }; }
+pub fn fa<F>(f: F) -> F { FARGC.with(|c| c.set(c.get() + 1)); f }
+pub fn fargc() -> u32 { FARGC.with(|c| c.replace(0)) }
+const FSEP: &str = " #function-argument evaluations: ";
+fn norm(s: &str) -> &str { s.split(FSEP).next().unwrap_or(s) }
+
+/// a RangeInclusive that has been iterated to exhaustion, and what konst's into_iter sees of it (start()/end() only)
+pub fn exh(a: i32, b: i32) -> std::ops::RangeInclusive<i32> { let mut r = a..=b; for _ in r.by_ref() {} r }
+pub fn exh_model(a: i32, b: i32) -> std::ops::RangeInclusive<i32> { if a <= b { b..=b } else { a..=b } }
+
 /// function-path forms
 pub fn hv<T: H>(x: T) -> i32 { x.h().wrapping_mul(3) ^ 1 }
 pub fn hp<T: H>(x: &T) -> bool { x.h().rem_euclid(2) == 0 }
@@ -75,6 +87,11 @@ pub struct Chain {
     pub s: fn(&Inp) -> String,
     pub a: fn(&Inp) -> String,
     pub t: fn(&Inp) -> String,
+    /// extra alternative model: 0 none; 1 `x` = std chain over what konst sees of an exhausted RangeInclusive (attributed
+    /// when k == x); 2 `x` = the konst chain with flat_map's parameter renamed (attributed when x == s); 3 the chain has
+    /// function-valued argument expressions (attributed when k and s differ only in their evaluation count)
+    pub x_kind: u8,
+    pub x: fn(&Inp) -> String,
 }
 
 fn slices(vals: &[i32], maxlen: usize) -> Vec<Vec<i32>> {
@@ -121,6 +138,7 @@ pub fn run_all(chains: &[Chain]) {
         let mut documented: u64 = 0;
         let mut multi_item: u64 = 0;
         let mut takex: u64 = 0;
+        let mut xalt: u64 = 0;
         let ss_sel = if c.uses & 4 != 0 { &all_ss } else { &one_ss };
         let s_sel = if c.uses & 1 != 0 { &all_s } else { &one_s };
         let t_sel = if c.uses & 2 != 0 { &all_t } else { &one_t };
@@ -137,6 +155,22 @@ pub fn run_all(chains: &[Chain]) {
                 evals += 1;
                 if k.len() > 8 { multi_item += 1; }
                 if k == o { continue; }
+                let (k, o) = if c.x_kind == 3 {
+                    if norm(&k) == norm(&o) {
+                        xalt += 1;
+                        if xalt <= 2 { println!("XALT {} {:?} k={} s={}", c.id, inp, k, o); }
+                        continue;
+                    }
+                    (norm(&k).to_string(), norm(&o).to_string())
+                } else { (k, o) };
+                if c.x_kind == 1 || c.x_kind == 2 {
+                    let x = std::panic::catch_unwind(|| (c.x)(&inp)).unwrap_or_else(|_| "<panicked>".to_string());
+                    if (c.x_kind == 1 && k == x) || (c.x_kind == 2 && x == o) {
+                        xalt += 1;
+                        if xalt <= 2 { println!("XALT {} {:?} k={} s={} x={}", c.id, inp, k, o, x); }
+                        continue;
+                    }
+                }
                 if c.has_t && k == "<panicked>" {
                     // alternative model of the known finding: konst's take(n) pulls n+1 items from its source
                     let t = std::panic::catch_unwind(|| (c.t)(&inp)).unwrap_or_else(|_| "<panicked>".to_string());
@@ -148,6 +182,7 @@ pub fn run_all(chains: &[Chain]) {
                 }
                 if c.has_alt {
                     let alt = (c.a)(&inp);
+                    let alt = if c.x_kind == 3 { norm(&alt).to_string() } else { alt };
                     if k == alt {
                         // attributed by the python side from the chain's structure
                         known += 1;
@@ -164,7 +199,7 @@ pub fn run_all(chains: &[Chain]) {
             } } } } } }
         }
         total += evals;
-        println!("CHAIN {} evals={} fails={} alt_only={} multi={} takex={}", c.id, evals, fails, known, multi_item, takex);
+        println!("CHAIN {} evals={} fails={} alt_only={} multi={} takex={} xalt={}", c.id, evals, fails, known, multi_item, takex, xalt);
         let _ = documented;
     }
     println!("TOTAL {}", total);
@@ -188,12 +223,14 @@ SOURCES = {
     "repeat": ("konst::iter::repeat(inp.a)", "std::iter::repeat(inp.a)", None, "i32", False, False, False, 16),
     # ends by overflow after at most 256 items: adapters may come between it and the bounding take
     "range_from_u8": ("((inp.a as u8).wrapping_add(240)..)", "((inp.a as u8).wrapping_add(240)..)", None, "u8", False, False, False, 16),
+    # iterated to exhaustion before it becomes the source: std yields nothing more (never reversed here: de = False)
+    "range_inc_exhausted": ("exh(inp.a, inp.b)", "exh(inp.a, inp.b)", None, "i32", False, False, True, 16),
     "array_ref": ("&[3i32, 1, 2]", "[3i32, 1, 2].iter()", "[3i32, 1, 2].iter().rev()", "&i32", True, True, True, 0),
     "by_ref_range": ("&(inp.a..inp.b)", "(inp.a..inp.b)", "(inp.a..inp.b).rev()", "i32", True, True, True, 16),
 }
 SOURCE_WEIGHTS = [("slice", 8), ("range", 4), ("range_inc", 2), ("range_from", 2), ("slices2", 2), ("iter_copied", 2),
                   ("windows", 1), ("chunks", 1), ("rchunks", 1), ("chars", 1), ("split", 1), ("repeat", 1), ("array_ref", 1),
-                  ("by_ref_range", 1), ("range_from_u8", 2)]
+                  ("by_ref_range", 1), ("range_from_u8", 2), ("range_inc_exhausted", 1)]
 
 ZIP_ARGS = {
     # name -> (konst, std, std reversed, item type, exact, finite, de, uses)
@@ -332,6 +369,32 @@ def pat_for(ty, form):
     return "x", "x"
 
 
+_FA = [False]  # function-path arguments are written as the function-valued expression `fa(path)` (counted)
+
+
+def fp(name):
+    return ("fa(%s)" % name) if _FA[0] else name
+
+
+def x_kind_of(desc):
+    """which extra alternative model the chain needs (see `Chain::x_kind` in the prelude)"""
+    if desc["src"] == "range_inc_exhausted":
+        return 1
+    reversing = any(a["m"] == "rev" for a in desc["adapters"]) or desc["consumer"]["m"] in ("rfind", "rfold", "rposition")
+    forms = [(a["m"], a.get("form", 0)) for a in desc["adapters"]] + [(desc["consumer"]["m"], desc["consumer"].get("form", 0))]
+    if not reversing and desc["src"] != "range_from_u8":
+        seen_fm = False
+        for m, f in forms:
+            if m == "flat_map":
+                seen_fm = True
+            elif seen_fm and f == 7 and m in ("map", "filter", "skip_while", "take_while", "all", "any", "find", "position"):
+                return 2
+    if any(f == 2 and m in ("map", "filter", "skip_while", "take_while", "filter_map", "all", "any", "find", "rfind", "position", "rposition", "find_map")
+           for m, f in forms):
+        return 3
+    return 0
+
+
 def closure(kind, ty, form, by_ref):
     """returns (konst closure text, std closure text). kind in map/pred/fm/mapt"""
     if kind == "map":
@@ -339,7 +402,7 @@ def closure(kind, ty, form, by_ref):
         if form == 1:
             return "|x| -> i32 { %s }" % body, "|x| -> i32 { %s }" % body
         if form == 2:
-            return "hv", "hv"
+            return fp("hv"), fp("hv")
         if form == 3 and ty.startswith("("):
             b = "(p, q).h().wrapping_mul(3) ^ 1"
             return "|(p, q)| %s" % b, "|(p, q)| %s" % b
@@ -347,29 +410,39 @@ def closure(kind, ty, form, by_ref):
             return "|x| (x.h().wrapping_add(1), x)", "|x| (x.h().wrapping_add(1), x)"
         if form == 5:
             return "|x: %s| %s" % (ty, body), "|x: %s| %s" % (ty, body)
+        if form == 7:
+            body = "x.h().wrapping_mul(3) ^ w.h()"
         return "|x| %s" % body, "|x| %s" % body
     if kind == "pred":
         body = "x.h().rem_euclid(2) == 0"
+        if form == 7:
+            body = "(x.h() ^ w.h()).rem_euclid(2) == 0"
         if form == 1:
             return "|x| -> bool { %s }" % body, "|x| -> bool { %s }" % body
         if form == 2:
-            return ("hp", "hp") if by_ref else ("hpv", "hpv")
+            return (fp("hp"), fp("hp")) if by_ref else (fp("hpv"), fp("hpv"))
         if form == 6:
             body = "x.h().rem_euclid(3) != 1"
         return "|x| %s" % body, "|x| %s" % body
     if kind == "fm":
         body = "if x.h().rem_euclid(3) == 0 { None } else { Some(x.h().wrapping_add(1)) }"
         if form == 2:
-            return "hfm", "hfm"
+            return fp("hfm"), fp("hfm")
         if form == 1:
             return "|x| -> Option<i32> { %s }" % body, "|x| -> Option<i32> { %s }" % body
         return "|x| %s" % body, "|x| %s" % body
     raise ValueError(kind)
 
 
-def render_chain(desc):
+def render_chain(desc, flat_w=True):
     """returns (konst method list, std chain suffix, alt chain suffix or None, uses, flags)"""
     st = State(desc["src"])
+    xk = x_kind_of(desc)
+    _FA[0] = xk == 3
+    # flat_map's parameter is called `w`, like a variable of the caller that later closures may use, unless the chain
+    # needs another alternative model already
+    reversing = any(a["m"] == "rev" for a in desc["adapters"]) or desc["consumer"]["m"] in ("rfind", "rfold", "rposition")
+    name_w = flat_w and xk in (0, 2) and not reversing and desc["src"] != "range_from_u8"
     ksrc, ssrc, asrc, *_ = SOURCES[desc["src"]]
     kparts, sparts, aparts = [], [], []
     r_index = None
@@ -397,8 +470,13 @@ def render_chain(desc):
             kparts.append("map(%s)" % k); sparts.append(".map(%s)" % s); aparts.append(".map(%s)" % s)
         elif m == "flat_map":
             body, rbody, ity, uses = FLAT_INNER[ad["inner"]]
-            kparts.append("flat_map(|x| %s)" % body)
-            sparts.append(".flat_map(|x| %s)" % body)
+            if name_w:
+                body = body.replace("x.h()", "w.h()").replace("&x", "&w")
+                kparts.append("flat_map(|w| %s)" % body)
+                sparts.append(".flat_map(|w| %s)" % body)
+            else:
+                kparts.append("flat_map(|x| %s)" % body)
+                sparts.append(".flat_map(|x| %s)" % body)
             aparts.append(".flat_map(|x| %s)" % (rbody if before_r else body))
         elif m == "flatten":
             kparts.append("flatten()")
@@ -429,12 +507,12 @@ def render_chain(desc):
     form = c.get("form", 0)
     has_alt = r_index is not None
     flags = dict(has_alt=has_alt, posdep=st.posdep_before_r, enum_before_r=st.enum_before_r,
-                 rposition=(cm == "rposition"), uses=st.uses, has_t=st.overflow_src)
+                 rposition=(cm == "rposition"), uses=st.uses, has_t=st.overflow_src, x_kind=xk)
     return kparts, sparts, aparts, ksrc, ssrc, asrc, item_ty, flags
 
 
-def render_fns(i, desc, std_only=False):
-    kparts, sparts, aparts, ksrc, ssrc, asrc, item_ty, flags = render_chain(desc)
+def render_fns(i, desc, std_only=False, _second=False):
+    kparts, sparts, aparts, ksrc, ssrc, asrc, item_ty, flags = render_chain(desc, flat_w=not _second)
     c = desc["consumer"]
     cm = c["m"]
     form = c.get("form", 0)
@@ -446,8 +524,13 @@ def render_fns(i, desc, std_only=False):
     pk, ps = closure("pred", item_ty, form, False)
     pkr, psr = closure("pred", item_ty, form, True)
     fold_k = "|acc, x| acc.wrapping_mul(31).wrapping_add(x.h())"
+    fold_init = "7i32"
     if form == 1:
         fold_k = "|acc: i32, x| -> i32 { acc.wrapping_mul(31).wrapping_add(x.h()) }"
+    if form == 2 and cm in ("fold", "rfold"):
+        # tuple accumulator destructured by the closure's first parameter
+        fold_init = "(7i32, 0u32)"
+        fold_k = "|(acc, n), x| (acc.wrapping_mul(31).wrapping_add(x.h()), n + 1)"
     fmk, fms = closure("fm", item_ty, form, False)
 
     def std_consume(chain, mname):
@@ -468,6 +551,8 @@ def render_fns(i, desc, std_only=False):
         if mname == "next":
             return "format!(\"{:?}\", %s.next().map(|x| x.h()))" % chain
         if mname in ("fold", "rfold"):
+            if form == 2:
+                return "format!(\"{:?}\", %s.%s(%s, %s))" % (chain, mname, fold_init, fold_k)
             return "format!(\"{:?}\", %s.%s(7i32, |acc, x| acc.wrapping_mul(31).wrapping_add(x.h())))" % (chain, mname)
         raise ValueError(mname)
 
@@ -490,7 +575,7 @@ def render_fns(i, desc, std_only=False):
     elif cm == "next":
         kbody = "format!(\"{:?}\", iter::eval!(%s%s, next()).map(|x| x.h()))" % (ksrc, kmethods)
     elif cm in ("fold", "rfold"):
-        kbody = "format!(\"{:?}\", iter::eval!(%s%s, %s(7i32, %s)))" % (ksrc, kmethods, cm, fold_k)
+        kbody = "format!(\"{:?}\", iter::eval!(%s%s, %s(%s, %s)))" % (ksrc, kmethods, cm, fold_init, fold_k)
     else:
         raise ValueError(cm)
     sbody = std_consume(schain, cm)
@@ -498,8 +583,19 @@ def render_fns(i, desc, std_only=False):
     fwd = {"rfind": "find", "rfold": "fold", "rposition": "position"}.get(cm, cm)
     abody = std_consume(achain, fwd) if achain else "String::new()"
     def counted(body):
-        # the result string carries the number of argument-expression evaluations of this run
-        return "argc(); let r = { %s }; format!(\"{} #argument evaluations: {}\", r, argc())" % body
+        # the result string carries the number of argument-expression evaluations of this run; `w` is a variable of the
+        # caller that closures of form 7 use
+        return ("let w: i32 = inp.a.wrapping_add(1000); argc(); fargc(); let r = { %s }; "
+                "format!(\"{} #argument evaluations: {}{}{}\", r, argc(), FSEP, fargc())" % body)
+
+    if _second:
+        return kbody
+    xbody = "String::new()"
+    if flags["x_kind"] == 1:
+        xbody = std_consume("ac(exh_model(inp.a, inp.b))" + "".join(sparts), cm)
+    elif flags["x_kind"] == 2:
+        xbody = "String::new()" if std_only else render_fns(i, desc, std_only, _second=True)
+        render_chain(desc)  # restore the module state of the first rendering
 
     src = []
     if std_only:
@@ -508,6 +604,7 @@ def render_fns(i, desc, std_only=False):
     src.append("fn s_%d(inp: &Inp) -> String { %s }" % (i, counted(sbody)))
     src.append("fn a_%d(inp: &Inp) -> String { %s }" % (i, counted(abody)))
     src.append("fn t_%d(inp: &Inp) -> String { %s }" % (i, counted(tbody)))
+    src.append("fn x_%d(inp: &Inp) -> String { %s }" % (i, counted(xbody)))
     return "\n".join(src), flags
 
 
@@ -517,8 +614,8 @@ def render_program(descs, std_only=False):
         f, flags = render_fns(i, d, std_only)
         fns.append("// %s\n%s" % (json.dumps(d, sort_keys=True), f))
         flags_all.append(flags)
-        table.append("Chain { id: %d, uses: %d, has_alt: %s, has_t: %s, k: k_%d, s: s_%d, a: a_%d, t: t_%d }," %
-                     (i, flags["uses"], "true" if flags["has_alt"] else "false", "true" if flags["has_t"] else "false", i, i, i, i))
+        table.append("Chain { id: %d, uses: %d, has_alt: %s, has_t: %s, k: k_%d, s: s_%d, a: a_%d, t: t_%d, x_kind: %d, x: x_%d }," %
+                     (i, flags["uses"], "true" if flags["has_alt"] else "false", "true" if flags["has_t"] else "false", i, i, i, i, flags["x_kind"], i))
     src = PRELUDE + "\n" + "\n\n".join(fns) + "\n\nfn main() {\n    let chains = vec![\n        " + \
         "\n        ".join(table) + "\n    ];\n    std::panic::set_hook(Box::new(|_| {}));\n    run_all(&chains);\n}\n"
     return src, flags_all
@@ -545,11 +642,11 @@ def random_adapter(rng, m=None):
     m = m or rng.choice(ADAPTERS)
     ad = {"m": m}
     if m in ("filter", "skip_while", "take_while"):
-        ad["form"] = rng.choice([0, 0, 1, 2, 6])
+        ad["form"] = rng.choice([0, 0, 1, 2, 6, 7])
     elif m == "filter_map":
         ad["form"] = rng.choice([0, 0, 1, 2])
     elif m == "map":
-        ad["form"] = rng.choice([0, 0, 1, 2, 3, 4, 5])
+        ad["form"] = rng.choice([0, 0, 1, 2, 3, 4, 5, 7])
     elif m == "flat_map":
         ad["inner"] = rng.choice(["range", "slice"])
     elif m == "zip":
@@ -591,7 +688,7 @@ def gen_chain(rng, want_adapter=None, want_consumer=None, max_depth=5):
         if not placed:
             continue
         cm = want_consumer or rng.choice(CONSUMERS)
-        desc["consumer"] = {"m": cm, "form": rng.choice([0, 0, 1, 2, 6]) if cm in ("all", "any", "find", "rfind", "position", "rposition") else rng.choice([0, 1, 2]) if cm in ("find_map",) else rng.choice([0, 1])}
+        desc["consumer"] = {"m": cm, "form": rng.choice([0, 0, 1, 2, 6, 7]) if cm in ("all", "any", "find", "rfind", "position", "rposition") else rng.choice([0, 1, 2]) if cm in ("find_map", "fold", "rfold") else rng.choice([0, 1])}
         if cm == "for_each":
             desc["macro"] = rng.choice(["for_each", "eval"])
         if typecheck(desc) is None:
@@ -830,6 +927,15 @@ def classify(desc, flags, chain_stats, fails, alts, known_sigs):
             known += n_tx
         else:
             v.append("konst panicked where std's chain ends normally; std with take(n+1) panics too (take pulls one extra item): %d inputs" % n_tx)
+    n_x = chain_stats.get("xalt", 0)
+    if n_x:
+        sig, what = {1: ("exhausted-range-inclusive-yields-last-item", "konst's result equals std's chain over `end..=end`: an exhausted RangeInclusive source yields its last item again"),
+                     2: ("flat-map-parameter-visible-in-later-closures", "konst agrees with std once flat_map's closure parameter is renamed: the parameter shadows the caller's variable of the same name in later closures"),
+                     3: ("function-argument-evaluated-per-item", "results agree, only the number of evaluations of a function-valued argument expression differs (konst evaluates it once per item)")}[flags["x_kind"]]
+        if sig in known_sigs:
+            known += n_x
+        else:
+            v.append("%s: %d inputs" % (what, n_x))
     n_alt = chain_stats.get("alt_only", 0)
     if n_alt:
         if flags["posdep"]:
@@ -920,6 +1026,12 @@ def run(prop, tier, seed, out, timeout, **kw):
             v, kn, doc = classify(d, flags[i], stc, fails.get(i, []), alts.get(i, []), known_sigs)
             labels["known_finding_hits"] += kn
             labels["take_extra_pull_hits"] += stc.get("takex", 0)
+            if stc.get("xalt", 0):
+                kname = "extra_model_%d_hits" % flags[i]["x_kind"]
+                labels[kname] = labels.get(kname, 0) + stc["xalt"]
+            if flags[i]["x_kind"]:
+                kname = "chains_needing_extra_model_%d" % flags[i]["x_kind"]
+                labels[kname] = labels.get(kname, 0) + 1
             labels["documented_exception_hits"] += doc
             if flags[i]["has_alt"]:
                 labels["chains_with_reversal"] += 1
@@ -973,7 +1085,11 @@ def run(prop, tier, seed, out, timeout, **kw):
         text.append("VIOLATION property=%s replay=%s" % (prop, path))
         rc = 1
     for sig, desc in known:
-        text.append("KNOWN-FINDING: property=%s %s (signature=%s, hits this run=%d)" % (prop, desc, sig, (labels["known_finding_hits"] - labels["take_extra_pull_hits"]) if sig == "posdep-adapter-before-reversal" else labels["take_extra_pull_hits"]))
+        text.append("KNOWN-FINDING: property=%s %s (signature=%s, hits this run=%d)" % (prop, desc, sig, {"posdep-adapter-before-reversal": labels["known_finding_hits"] - labels["take_extra_pull_hits"] - sum(labels.get("extra_model_%d_hits" % q, 0) for q in (1, 2, 3)),
+                     "take-pulls-one-extra-item": labels["take_extra_pull_hits"],
+                     "exhausted-range-inclusive-yields-last-item": labels.get("extra_model_1_hits", 0),
+                     "flat-map-parameter-visible-in-later-closures": labels.get("extra_model_2_hits", 0),
+                     "function-argument-evaluated-per-item": labels.get("extra_model_3_hits", 0)}.get(sig, 0)))
     wall = time.time() - t0
     text.append("[%s %s] programs=%d evaluations=%d distinct_nontrivial=%d violations=%d wall=%.1fs" %
                 (prop, ENGINE, programs, evaluations, len(nontriv), len(violations), wall))
